@@ -25,7 +25,7 @@ var ContractClassHashBucket = typed.NewBucket(
 var ClassBucket = typed.NewBucket(
 	db.Class,
 	key.ClassHash,
-	value.Binary[DeclaredClassDefinition](),
+	value.Cbor[DeclaredClassDefinition](),
 )
 
 // Bucket 5: Contract address (Address) -> Contract nonce (Felt)
